@@ -13,6 +13,11 @@ EVAL_TIES = [(T, "Minidyn.Tie.functions_tie"), (T, "Minidyn.Tie.functions_expect
              (T, "Minidyn.Tie.dynamodbTypes_tie")]
 CLIENT_TIES = [(T, "Minidyn.Tie.batch_limit_expected"), (T, "Minidyn.Tie.regex_expected"), (T, "Minidyn.Tie.emulatingErrors_expected")]
 
+def P(*mods):
+    """all theorems of the given proof modules"""
+    return [("Minidyn." + m, "*") for m in mods]
+
+
 HIST_RULE = ("histories of abstract client operations generated from VERIF_SEED (profile-specific operation mix), run on the real "
              "v1 and v2 clients and on the Lean model; distinct = different canonical case; non-trivial = at least two successful "
              "writes and one successful read")
@@ -20,27 +25,27 @@ EXPR_RULE = ("expressions printed from generated trees (type-aware, against a ge
              "interpreter.Language and on the Lean model; distinct = different canonical case; non-trivial = evaluated without error")
 
 PROPS = {
-    "C01": {"families": [("hist", "general", 500), ("hist", "keys", 300)], "obligations": [], "rule": HIST_RULE},
-    "C02": {"families": [("hist", "search", 500), ("hist", "index", 200)], "obligations": [], "rule": HIST_RULE},
-    "C03": {"families": [("hist", "index", 600)], "obligations": [], "rule": HIST_RULE},
-    "C04": {"families": [("hist", "search", 600)], "obligations": [], "rule": HIST_RULE},
-    "C05": {"families": [("hist", "cond", 600)], "obligations": [], "rule": HIST_RULE},
-    "C06": {"families": [("match", None, 6000)], "obligations": TABLE_TIES + EVAL_TIES, "rule": EXPR_RULE},
-    "C07": {"families": [("update", None, 6000)], "obligations": TABLE_TIES + EVAL_TIES, "rule": EXPR_RULE},
-    "C08": {"families": [("hist", "fail", 600)], "obligations": [], "rule": HIST_RULE},
-    "C09": {"families": [("match", None, 3000), ("update", None, 3000), ("garbage", None, 4000)], "obligations": TABLE_TIES, "rule": EXPR_RULE},
-    "C10": {"families": [("hist", "values", 500)], "obligations": [], "rule": HIST_RULE},
+    "C01": {"families": [("hist", "general", 500), ("hist", "keys", 300)], "obligations": P("Props.C01", "Lemmas.Order", "Lemmas.Search", "Lemmas.Assoc"), "rule": HIST_RULE},
+    "C02": {"families": [("hist", "search", 500), ("hist", "index", 200)], "obligations": P("Props.C02", "Props.C01", "Lemmas.Order", "Lemmas.Search"), "rule": HIST_RULE},
+    "C03": {"families": [("hist", "index", 600)], "obligations": P("Props.C03"), "rule": HIST_RULE},
+    "C04": {"families": [("hist", "search", 600)], "obligations": P("Props.C04", "Props.C02", "Lemmas.Order", "Lemmas.Search"), "rule": HIST_RULE},
+    "C05": {"families": [("hist", "cond", 600)], "obligations": P("Props.C05"), "rule": HIST_RULE},
+    "C06": {"families": [("match", None, 6000)], "obligations": P("Props.C06") + TABLE_TIES + EVAL_TIES, "rule": EXPR_RULE},
+    "C07": {"families": [("update", None, 6000)], "obligations": P("Props.C07") + TABLE_TIES + EVAL_TIES, "rule": EXPR_RULE},
+    "C08": {"families": [("hist", "fail", 600)], "obligations": P("Props.C08"), "rule": HIST_RULE},
+    "C09": {"families": [("match", None, 3000), ("update", None, 3000), ("garbage", None, 4000)], "obligations": P("Props.C09") + TABLE_TIES, "rule": EXPR_RULE},
+    "C10": {"families": [("hist", "values", 500)], "obligations": P("Props.C10"), "rule": HIST_RULE},
     "C11": {"families": [("race", None, 1)], "obligations": [(TL, "Minidyn.Tie.wellLocked_generated_v1"), (TL, "Minidyn.Tie.wellLocked_generated_v2"),
                                                               (TL, "Minidyn.Tie.wellLocked_nonvacuous")], "rule": "pairs of client methods run concurrently under the race detector"},
-    "C12": {"families": [("hist", "numbers", 400), ("num", None, 3000)], "obligations": [], "rule": HIST_RULE},
-    "C13": {"families": [("hist", "keys", 600)], "obligations": [], "rule": HIST_RULE},
+    "C12": {"families": [("hist", "numbers", 400), ("num", None, 3000)], "obligations": P("Props.C12"), "rule": HIST_RULE},
+    "C13": {"families": [("hist", "keys", 600)], "obligations": P("Props.C13"), "rule": HIST_RULE},
     "C14": {"families": [("poke", None, 150)], "obligations": [(TS, "Minidyn.Tie.noSharing_generated_v1"), (TS, "Minidyn.Tie.noSharing_generated_v2"),
                                                                (TS, "Minidyn.Tie.sharing_covers_mappers"), (TS, "Minidyn.Tie.no_singleton_leak")],
             "rule": "every mutable location of generated value trees is written after a write / on a read result, then re-read"},
-    "C15": {"families": [("hist", "emul", 600)], "obligations": CLIENT_TIES, "rule": HIST_RULE},
-    "C16": {"families": [("hist", "fail", 300), ("reserved", None, 1), ("match", None, 2000)], "obligations": CLIENT_TIES, "rule": HIST_RULE},
-    "C17": {"families": [("hist", "general", 300), ("hist", "lifecycle", 200), ("hist", "emul", 200)], "obligations": [], "rule": HIST_RULE},
-    "C18": {"families": [("hist", "lifecycle", 600)], "obligations": [(TS, "Minidyn.Tie.no_singleton_leak")], "rule": HIST_RULE},
-    "C19": {"families": [("hist", "batch", 600)], "obligations": CLIENT_TIES[:1], "rule": HIST_RULE},
-    "C20": {"families": [("hist", "native", 600)], "obligations": [], "rule": HIST_RULE},
+    "C15": {"families": [("hist", "emul", 600)], "obligations": P("Props.C15") + CLIENT_TIES, "rule": HIST_RULE},
+    "C16": {"families": [("hist", "fail", 300), ("reserved", None, 1), ("match", None, 2000)], "obligations": P("Props.C16", "Props.ReservedSnapshot") + CLIENT_TIES, "rule": HIST_RULE},
+    "C17": {"families": [("hist", "general", 300), ("hist", "lifecycle", 200), ("hist", "emul", 200)], "obligations": P("Props.C17", "Props.C10"), "rule": HIST_RULE},
+    "C18": {"families": [("hist", "lifecycle", 600)], "obligations": P("Props.C18") + [(TS, "Minidyn.Tie.no_singleton_leak")], "rule": HIST_RULE},
+    "C19": {"families": [("hist", "batch", 600)], "obligations": P("Props.C19") + CLIENT_TIES[:1], "rule": HIST_RULE},
+    "C20": {"families": [("hist", "native", 600)], "obligations": P("Props.C20"), "rule": HIST_RULE},
 }
